@@ -115,6 +115,21 @@ broken:
   resume { i8*, i32 } %lp3
 }
 
+declare void @bundle_callee(i32)
+
+define i32 @bundles_and_callbr(i32 %x, i8* %p) {
+entry:
+  %inc = add i32 %x, 1
+  call void @bundle_callee(i32 %inc) [ "deopt"(i32 %x, i8* %p), "tag"(i32 %inc) ], !annot !{!1, !2}
+  callbr void asm "", "r,X"(i32 %inc, i8* blockaddress(@bundles_and_callbr, %indirect)) to label %fallthrough [label %indirect]
+
+fallthrough:
+  ret i32 %inc
+
+indirect:
+  ret i32 %x
+}
+
 define i32 @numbered(i32, i32) {
   %3 = add i32 %0, %1
   %4 = mul i32 %3, %3
